@@ -211,6 +211,49 @@ pub fn run_random(args: &Args, rep: &mut Report) {
         let line = gen_string(&mut rng, maxl);
         check_line(&line, rep, args, idx, true);
         rep.count("c07.random.lines");
+        // (a') the same line typed into a Cli: what reaches the handler is the name and the classified rest of one of the
+        // readings the statement allows (nothing between the keyboard and the tokenizer may touch the line)
+        if line.chars().count() <= 60 && !line.contains('\u{7f}') {
+            let alts = ref_tokenize_set(&line);
+            let mut cmd = vec![0u8; line.len() + 2].into_boxed_slice();
+            let mut hist = vec![0u8; 0].into_boxed_slice();
+            let sink = MonSink::new();
+            let mut rig: Rig<'_, RawCommand<'static>> = Rig::build(&mut cmd, &mut hist, 0, false, sink, RecProc::new(vec![], None)).expect("build");
+            for &b in line.as_bytes() {
+                rig.byte(b).expect("sink never fails");
+            }
+            rig.byte(b'\r').expect("sink never fails");
+            rep.evaluations += 1;
+            rep.count("c07.typed_random_lines");
+            let recs = &rig.proc.log;
+            let mut ok = false;
+            for toks in &alts {
+                if toks.is_empty() {
+                    ok |= recs.is_empty();
+                    continue;
+                }
+                let items = ref_classify(&toks[1..]);
+                let (is_help, open) = help_shape(&toks[0], &items);
+                if is_help || open {
+                    ok |= recs.is_empty();
+                }
+                if !is_help && recs.len() == 1 && recs[0].name == toks[0].as_bytes() {
+                    let want: Vec<RecArg> = items
+                        .iter()
+                        .map(|i| match i {
+                            Item::DoubleDash => RecArg::DoubleDash,
+                            Item::Long(n) => RecArg::Long(n.as_bytes().to_vec()),
+                            Item::Short(c) => RecArg::Short(*c as u32),
+                            Item::Value(v) => RecArg::Value(v.as_bytes().to_vec()),
+                        })
+                        .collect();
+                    ok |= recs[0].args == want;
+                }
+            }
+            if !ok {
+                report(rep, args, "C07", "tokenize", "typed-line", idx, line.chars().count(), J::s(&line), format!("typed {:?}: handler received {:?}, the statement allows the tokens {:?}", line, recs, alts));
+            }
+        }
         // (b) round trip of a random list
         let list: Vec<String> = (0..rng.range(1, 6)).map(|_| gen_string(&mut rng, 8)).collect();
         rep.sample(list.len(), || J::Arr(list.iter().map(J::s).collect()));
